@@ -580,4 +580,148 @@ theorem execute_error_state (env : Env) (s s' : Sched) (rc : Int) (ran : List It
               simp only [h5, pure, Except.pure, Except.ok.injEq, Prod.mk.injEq] at h
               omega
 
+/-! ### operations and histories -/
+
+/-- `tdma_sched_execute` with callbacks that do not re-enter the scheduler: the plain abstract execute -/
+theorem execute_abs (env : Env) (s : Sched) (hinv : Inv env s) (hne : NoReentry env) :
+    ∃ s' rc ran rets, execute env s = .ok (s', rc, ran, rets) ∧ Inv env s' ∧ s'.cur = s.cur ∧
+      abs s' = (Spec.TdmaSched.execute (abs s)).1 ∧
+      rc = ((Spec.TdmaSched.execute (abs s)).2.length : Int) ∧
+      Spec.TdmaSched.ValidRun (Spec.TdmaSched.execute (abs s)).2 (ran.map absItem) := by
+  obtain ⟨s', ran, rets, he, hi, hc, _, pre, fly, hran, hv, hfly, hdue, _⟩ :=
+    execute_refines env s hinv (noReentry_envOk env hne)
+  have hnil : (ran.map absItem).flatMap (absScr env) = [] := by
+    apply List.flatMap_eq_nil_iff.mpr
+    intro x _
+    exact absScr_noReentry env hne x
+  rw [hnil] at hfly hdue
+  simp only [Spec.TdmaSched.run, List.drop_length] at hfly hdue
+  subst hfly
+  simp only [List.append_nil] at hran
+  refine ⟨s', _, ran, rets, he, hi, hc, hdue, ?_, ?_⟩
+  · simp only [Spec.TdmaSched.execute]
+    have := hv.1.length_eq
+    rw [← hran] at this
+    simp only [List.length_map] at this
+    rw [this]
+  · simp only [Spec.TdmaSched.execute]
+    rw [hran]; exact hv
+
+/-- every operation against the abstract machine; for `execute` the plain abstract execute is the
+specification only when callbacks do not re-enter (`execute_refines` is the general statement) -/
+theorem step_refines (env : Env) (s : Sched) (op : Op) (hinv : Inv env s) (hop : OpOk env op)
+    (hne : op = .execute → NoReentry env) :
+    ∃ s' out, step env s op = .ok (s', out) ∧ Inv env s' ∧
+      abs s' = (Spec.TdmaSched.step (abs s) (absOp op)).1 ∧
+      OutMatch out (Spec.TdmaSched.step (abs s) (absOp op)).2 ∧ (op ≠ .execute → out.ran = []) := by
+  cases op with
+  | schedule off cb p1 p2 p3 prio =>
+    obtain ⟨ho, h1, h2, h3, hp1, hp2, hok⟩ := hop
+    obtain ⟨s', rc, he, hi, _, ha, _⟩ := schedule_spec env s off cb p1 p2 p3 prio hinv ho h1 h2 h3 ⟨hp1, hp2⟩ hok
+    refine ⟨s', ⟨rc, [], []⟩, ?_, hi, ?_, ⟨?_, ?_⟩, fun _ => rfl⟩
+    · simp only [step, bind, Except.bind, he]; rfl
+    · simp only [absOp, Spec.TdmaSched.step, ← ha]
+    · simp only [absOp, Spec.TdmaSched.step, ← ha]
+    · exact validRun_nil
+  | scheduleSet off set p3 =>
+    obtain ⟨he, hm, h3, hok⟩ := hop
+    obtain ⟨s', rc, hee, hi, _, ha, _⟩ := scheduleSet_spec env s off set p3 hinv he hm h3 hok
+    refine ⟨s', ⟨rc, [], []⟩, ?_, hi, ?_, ⟨?_, ?_⟩, fun _ => rfl⟩
+    · simp only [step, bind, Except.bind, hee]; rfl
+    · simp only [absOp, Spec.TdmaSched.step, ← ha]
+    · simp only [absOp, Spec.TdmaSched.step, ← ha]
+    · exact validRun_nil
+  | advance =>
+    obtain ⟨he, hi, ha⟩ := advance_spec env s hinv
+    refine ⟨_, ⟨0, [], []⟩, ?_, hi, ?_, ⟨?_, ?_⟩, fun _ => rfl⟩
+    · simp only [step, bind, Except.bind, he]; rfl
+    · simp only [absOp, Spec.TdmaSched.step, ha]
+    · rfl
+    · exact validRun_nil
+  | execute =>
+    obtain ⟨s', rc, ran, rets, he, hi, _, ha, hrc, hv⟩ := execute_abs env s hinv (hne rfl)
+    refine ⟨s', ⟨rc, ran, rets⟩, ?_, hi, ?_, ⟨?_, ?_⟩, fun h => absurd rfl h⟩
+    · simp only [step, bind, Except.bind, he]; rfl
+    · simp only [absOp, Spec.TdmaSched.step, ha]
+    · simp only [absOp, Spec.TdmaSched.step, hrc]
+    · exact hv
+  | reset =>
+    obtain ⟨s', he, hi, _, ha⟩ := reset_spec env s hinv
+    refine ⟨s', ⟨0, [], []⟩, ?_, hi, ?_, ⟨?_, ?_⟩, fun _ => rfl⟩
+    · simp only [step, bind, Except.bind, he]; rfl
+    · simp only [absOp, Spec.TdmaSched.step, ha]
+    · rfl
+    · exact validRun_nil
+
+theorem run_refines (env : Env) (hne : NoReentry env) : ∀ (ops : List Op) (s : Sched), Inv env s →
+    (∀ op ∈ ops, OpOk env op) →
+    ∃ s' outs, run env s ops = .ok (s', outs) ∧ Inv env s' ∧
+      abs s' = (Spec.TdmaSched.run (abs s) (ops.map absOp)).1 ∧
+      OutsMatch outs (Spec.TdmaSched.run (abs s) (ops.map absOp)).2
+  | [], s, hinv, _ => ⟨s, [], rfl, hinv, rfl, trivial⟩
+  | op :: ops, s, hinv, hops => by
+    obtain ⟨s1, o, h1, hi1, ha1, hm1, _⟩ := step_refines env s op hinv (hops op (List.mem_cons_self ..))
+      (fun _ => hne)
+    obtain ⟨s', outs, h2, hi2, ha2, hm2⟩ := run_refines env hne ops s1 hi1
+      (fun x hx => hops x (List.mem_cons_of_mem _ hx))
+    refine ⟨s', o :: outs, ?_, hi2, ?_, ?_⟩
+    · simp only [run, bind, Except.bind, h1, h2]; rfl
+    · simp only [List.map_cons, Spec.TdmaSched.run, ← ha1, ha2]
+    · simp only [List.map_cons, Spec.TdmaSched.run, ← ha1]
+      exact ⟨hm1, hm2⟩
+
+/-- the scheduler calls made from inside by the callbacks an operation ran, in order, as the property
+sees them -/
+def flyOps (env : Env) (o : Out) : List (Spec.TdmaSched.Op Cb) :=
+  (o.ran.map absItem).flatMap (absScr env)
+
+/-- every admissible operation in an admissible environment (scripted callbacks included): no fault,
+invariant preserved; what `execute` does is an admissible on-the-fly execution; every other operation
+does what the abstract machine does -/
+theorem step_spec (env : Env) (s : Sched) (op : Op) (hinv : Inv env s) (henv : EnvOk env)
+    (hop : OpOk env op) :
+    ∃ s' out, step env s op = .ok (s', out) ∧ Inv env s' ∧
+      (op = .execute → out.rc = (out.ran.length : Int) ∧ out.rets.length = out.ran.length ∧
+        Spec.TdmaSched.ExecOnTheFly (absScr env) (abs s) (out.ran.map absItem) (abs s') out.rets.flatten) ∧
+      (op ≠ .execute → out.ran = [] ∧ out.rets = [] ∧
+        abs s' = (Spec.TdmaSched.step (abs s) (absOp op)).1 ∧
+        out.rc = (Spec.TdmaSched.step (abs s) (absOp op)).2.rc) := by
+  by_cases hex : op = .execute
+  · subst hex
+    obtain ⟨s', ran, rets, he, hi, _, hl, hx⟩ := execute_refines env s hinv henv
+    refine ⟨s', ⟨ran.length, ran, rets⟩, ?_, hi, fun _ => ⟨rfl, hl, hx⟩, fun h => absurd rfl h⟩
+    simp only [step, bind, Except.bind, he]; rfl
+  · obtain ⟨s', out, h1, hi, ha, hm, hr⟩ := step_refines env s op hinv hop (fun h => absurd h hex)
+    refine ⟨s', out, h1, hi, fun h => absurd h hex, fun _ => ⟨hr hex, ?_, ha, hm.1⟩⟩
+    cases op with
+    | execute => exact absurd rfl hex
+    | schedule off cb p1 p2 p3 prio =>
+      simp only [step, bind, Except.bind] at h1
+      cases h2 : schedule s off cb p1 p2 p3 prio with
+      | error f => simp [h2] at h1
+      | ok r => simp only [h2, pure, Except.pure, Except.ok.injEq, Prod.mk.injEq] at h1; rw [← h1.2]
+    | scheduleSet off set p3 =>
+      simp only [step, bind, Except.bind] at h1
+      cases h2 : scheduleSet s off set p3 with
+      | error f => simp [h2] at h1
+      | ok r => simp only [h2, pure, Except.pure, Except.ok.injEq, Prod.mk.injEq] at h1; rw [← h1.2]
+    | advance =>
+      simp only [step, bind, Except.bind] at h1
+      cases h2 : advance s with
+      | error f => simp [h2] at h1
+      | ok r => simp only [h2, pure, Except.pure, Except.ok.injEq, Prod.mk.injEq] at h1; rw [← h1.2]
+    | reset =>
+      simp only [step, bind, Except.bind] at h1
+      cases h2 : reset s with
+      | error f => simp [h2] at h1
+      | ok r => simp only [h2, pure, Except.pure, Except.ok.injEq, Prod.mk.injEq] at h1; rw [← h1.2]
+
+theorem run_safe (env : Env) (henv : EnvOk env) : ∀ (ops : List Op) (s : Sched), Inv env s →
+    (∀ op ∈ ops, OpOk env op) → ∃ s' outs, run env s ops = .ok (s', outs) ∧ Inv env s'
+  | [], s, hinv, _ => ⟨s, [], rfl, hinv⟩
+  | op :: ops, s, hinv, hops => by
+    obtain ⟨s1, o, h1, hi1, _, _⟩ := step_spec env s op hinv henv (hops op (List.mem_cons_self ..))
+    obtain ⟨s', outs, h2, hi2⟩ := run_safe env henv ops s1 hi1 (fun x hx => hops x (List.mem_cons_of_mem _ hx))
+    exact ⟨s', o :: outs, by simp only [run, bind, Except.bind, h1, h2]; rfl, hi2⟩
+
 end OsmoVerif.TdmaSched
